@@ -27,6 +27,7 @@
 #include <atomic>
 #include <cmath>
 #include <limits>
+#include <map>
 #include <memory>
 #include <mutex>
 
@@ -838,6 +839,91 @@ static bool doRun(const std::vector<std::string> &t)
     return true;
 }
 
+// FMT*'s internal cost bookkeeping, opened (all members are protected): every motion of nn_ with its parent, its
+// cost-to-come and its set; the cost of the reported path and of lastGoalMotion_.
+struct FMTX : og::FMT
+{
+    FMTX(const ob::SpaceInformationPtr &si) : og::FMT(si) {}
+    std::string dump(const ob::OptimizationObjectivePtr &opt, unsigned dim)
+    {
+        std::vector<Motion *> ms;
+        nn_->list(ms);
+        std::map<const Motion *, size_t> idx;
+        for (size_t i = 0; i < ms.size(); ++i)
+            idx[ms[i]] = i;
+        std::string out = "n=" + std::to_string(ms.size()) + " goal=" +
+                          (lastGoalMotion_ && idx.count(lastGoalMotion_) ? std::to_string(idx[lastGoalMotion_]) : std::string("-")) + " :";
+        for (size_t i = 0; i < ms.size(); ++i)
+        {
+            const Motion *m = ms[i];
+            std::string st;
+            for (unsigned k = 0; k < dim; ++k)
+                st += (k ? "," : "") + vp::bits(m->getState()->as<ob::RealVectorStateSpace::StateType>()->values[k]);
+            const Motion *par = m->getParent();
+            double edge = par ? opt->motionCost(par->getState(), m->getState()).value() : 0.0;
+            out += " " + std::to_string(i) + ":" + (par ? (idx.count(par) ? std::to_string(idx[par]) : std::string("?")) : std::string("-")) + ":" +
+                   vp::bits(m->getCost().value()) + ":" + std::to_string((int)m->getSetType()) + ":" + vp::bits(edge) + ":" + st;
+        }
+        return out;
+    }
+};
+
+static bool doFmt(const std::vector<std::string> &t)
+{
+    // fmt obj field env dim seed nsamples evals goalthr
+    if (t.size() != 9)
+        return false;
+    const std::string &kind = t[1];
+    auto field = vp::parseNat(t[2]);
+    auto env = vp::parseNat(t[3]);
+    auto dim = vp::parseNat(t[4]);
+    auto seed = vp::parseNat(t[5]);
+    auto nsamples = vp::parseNat(t[6]);
+    auto evals = vp::parseNat(t[7]);
+    auto gthr = vp::parseBits(t[8]);
+    if (!field || !env || !dim || !seed || !nsamples || !evals || !gthr || *dim < 2 || *dim > 4 || *field > 2 || *seed == 0)
+        return false;
+    unsigned d = (unsigned)*dim;
+    ompl::RNG::setSeed((std::uint_fast32_t)*seed);
+    auto si = makeSpace(d, 0.0, 1.0, 0.01, 1, envBoxes((unsigned)*env, d), -1);
+    auto obj = makeObjective(kind, si, (unsigned)*field, 0.5, d);
+    if (!obj)
+        return false;
+    auto pdef = std::make_shared<ob::ProblemDefinition>(si);
+    ob::ScopedState<> start(si), goal(si);
+    for (unsigned i = 0; i < d; ++i)
+    {
+        start[i] = 0.1;
+        goal[i] = 0.9;
+    }
+    pdef->setStartAndGoalStates(start, goal, *gthr);
+    pdef->setOptimizationObjective(obj);
+    auto planner = std::make_shared<FMTX>(si);
+    planner->setNumSamples((unsigned)*nsamples);
+    std::cout << "fmtrun obj=" << kind << std::endl;
+    try
+    {
+        planner->setProblemDefinition(pdef);
+        planner->setup();
+        std::atomic<unsigned long> calls{0};
+        unsigned long budget = *evals;
+        ob::PlannerTerminationCondition ptc([&calls, budget] { return ++calls > budget; });
+        ob::PlannerStatus st = planner->solve(ptc);
+        std::string sol = "sol=0";
+        if (pdef->hasSolution())
+        {
+            auto *pg = dynamic_cast<og::PathGeometric *>(pdef->getSolutionPath().get());
+            sol = "sol=1 pathcost=" + vp::bits(pg ? pg->cost(obj).value() : 0.0) + " plen=" + std::to_string(pg ? pg->getStateCount() : 0);
+        }
+        std::cout << "fmt status=" << clean(st.asString()) << " " << sol << " " << planner->dump(obj, d) << std::endl;
+    }
+    catch (const std::exception &e)
+    {
+        std::cout << "error " << clean(e.what()) << std::endl;
+    }
+    return true;
+}
+
 static int mainRun()
 {
     std::string line;
@@ -849,6 +935,11 @@ static int mainRun()
         if (t[0] == "run")
         {
             if (!doRun(t))
+                std::cout << "bad-op\n";
+        }
+        else if (t[0] == "fmt")
+        {
+            if (!doFmt(t))
                 std::cout << "bad-op\n";
         }
         else
